@@ -63,6 +63,16 @@ Section Composite.
        eenc := fun v => v;
        edec := fun b => if (Nat.eqb (length b) 16) && valid_bytes b then Some b else None;
        edefault := repeat 0 16%nat |}.
+  (* struct Quad { a, b, c, d : u64 }: fixed-size container of exactly 32 bytes - the size of one chunk and of a
+     Hash256, but four field chunks: root = H (H a b) (H c d), not the bytes themselves *)
+  Definition ek_quad : ekind bytes :=
+    {| eeqb := bytes_eqb; epd := None; epenc := le_num;
+       etroot := fun v => H (H (le_num (firstn 8 v)) (le_num (firstn 8 (skipn 8 v))))
+                            (H (le_num (firstn 8 (skipn 16 v))) (le_num (skipn 24 v)));
+       efixed := Some 32;
+       eenc := fun v => v;
+       edec := fun b => if (Nat.eqb (length b) 32) && valid_bytes b then Some b else None;
+       edefault := repeat 0 32%nat |}.
   (* VariableList<u8, U4>: variable size, root = mix_in_length(chunk(bytes), len) *)
   Definition ek_var : ekind bytes :=
     {| eeqb := bytes_eqb; epd := None; epenc := le_num;
